@@ -107,6 +107,13 @@ PLAN = {
         "assumptions": ["environment rows run in a single-threaded process that sets the real environment variables"],
         "replay_runner": "proxy", "replay_trace": "Trace_Proxy",
     },
+    "C15": {
+        "mc": [{"name": "prepared-fields-reader", "tla": "MultipartReader.tla", "cfg": "MultipartReader.cfg", "workers": 8}],
+        "families": [fam("mpart", runner="mpart", trace="Trace_Multipart")],
+        "rule": "MultipartReader.tla (model of PreparedFields::read: text cursor, stack of stream fields, end cursor) checked by TLC for every sequence of read sizes: output confluent, end-of-stream only at the end; real forms with 0..3 text fields x 0..3 files over data classes (all byte values, CR/LF/dash soup, look-alike delimiter lines, sizes 0..70000 around 8 KiB), names/filenames with blanks, unicode, ';' and '=', valid MIME strings; sweep of a file's size over 700 (quick) / 8800 (thorough) consecutive values so that the part boundary takes every offset modulo the 8 KiB copy buffer",
+        "assumptions": ASSUME_X + ["the boundary is random: 'does not occur in any part's data' is checked on every generated form, not proved for all"],
+        "replay_runner": "mpart", "replay_trace": "Trace_Multipart",
+    },
     "C12": {
         "mc": [],
         "families": [{"gen": ("tlc", {"name": "tunnel", "tla": "MC_Tunnel.tla", "cfg": "MC_Tunnel.cfg", "workers": 8}),
